@@ -172,7 +172,11 @@ Definition attr_names_to_show (sa : attrs) : list (string * string) :=   (* (nam
     else if mem n MASTER_ATTRS then []
     else [(n, n)]) sa.
 
+(* optional attributes for which the master's own port object has no fallback: shown only if the slave has them *)
+Definition no_fallback_attrs : list string := ["min"; "max"; "integer"; "step"; "choices"].
+
 Definition view_port_ok (slave_nm : string) (shown : attrs) (sp : sport) : bool :=
+  forallb (fun kv => if mem (fst kv) no_fallback_attrs then negb (is_none (get (fst kv) (sp_attrs sp))) else true) shown &&
   forallb (fun kv => if String.eqb (fst kv) "value" then true else
                      match expected_attr slave_nm (sp_attrs sp) (fst kv) with
                      | Some v => val_eqb (snd kv) v
